@@ -1063,7 +1063,7 @@ def r12(R):
         for bb, i, pl, rv, st in mq.assigns():
             if rv["rv"] == "binop" and rv["op"] in ("Ne", "Eq") and not pl["p"]:
                 for bb2, t in mq.terms():
-                    if t["t"] == "switch" and F.op_local(t["discr"]) == pl["l"]:
+                    if t["t"] == "switch" and mq.reads(t["discr"], pl["l"]):
                         for tgt in mq.succ(bb2):
                             reach = mq.reach_from([tgt])
                             if not (reach & pushes):
